@@ -415,10 +415,31 @@ def tls_arms(ctx, facts):
     hdr = re.compile(r"SetClientIdentityFromHeader::<S, F>::new$")
     crt = re.compile(r"ClientCertRecognizingAcceptor::<F>::new$")
     hb = fn_refs(b, hdr)
-    ctx.floor("ARM-tls", "header-layer references", len(hb), 2)
-    for n, x in enumerate(hb):
-        ok = flow.dominates(dom, true_bb, x) and not flow.dominates(dom, false_bb, x)
-        ctx.ob("ARM-tls", f"header-layer#{n}", ok, "header identity layer only under disable_https == true" if ok else "SetClientIdentityFromHeader is installed on a path where TLS is enabled: a caller-supplied identity header would be honoured", site_of(b, x))
+    ctx.floor("ARM-tls", "header-layer references", len(hb), 1)
+    # use sites: what each started server is given (decides the property); the construction site is only a fallback
+    spawns = [(bb2, t2) for bb2, t2 in b.calls() if (F.callee(t2)[0] or "").endswith("spawn_server")]
+    resolved = 0
+    for n, (sbb, st) in enumerate(spawns):
+        server = str(flow.expr_of(b, st["args"][1], max_depth=60))
+        service = str(flow.expr_of(b, st["args"][3], max_depth=60))
+        if "into_make_service" not in service:
+            continue
+        resolved += 1
+        tls = "rustls" in server
+        has_hdr = "SetClientIdentityFromHeader" in service
+        on_true = flow.dominates(dom, true_bb, sbb) and not flow.dominates(dom, false_bb, sbb)
+        on_false = flow.dominates(dom, false_bb, sbb)
+        if tls:
+            ok = not has_hdr and on_false
+            ctx.ob("ARM-tls", f"serve#{n}:tls-server-ignores-identity-header", ok, "TLS server: identity comes from the certificate only" if ok else "a TLS-enabled server is started with the SetClientIdentityFromHeader layer (or on the disable_https arm): a caller without a client certificate can name itself in a header", site_of(b, sbb))
+        else:
+            ok = has_hdr and on_true
+            ctx.ob("ARM-tls", f"serve#{n}:plain-server-under-disable_https", ok, "plain HTTP server only when https is disabled, identity from the header" if ok else "a plain-HTTP server is started outside the disable_https arm or without the header identity layer", site_of(b, sbb))
+    ctx.floor("ARM-tls", "servers started", len(spawns), 4)
+    if resolved < len(spawns):
+        for n, x in enumerate(hb):
+            ok = flow.dominates(dom, true_bb, x) and not flow.dominates(dom, false_bb, x)
+            ctx.ob("ARM-tls", f"header-layer#{n}", ok, "header identity layer only under disable_https == true" if ok else "SetClientIdentityFromHeader is installed on a path where TLS is enabled: a caller-supplied identity header would be honoured", site_of(b, x))
     # certificate acceptor: referenced in closures created on the false arms
     ncert = 0
     for cb in tree:
